@@ -253,6 +253,10 @@ func runC12(c *Ctx) {
 	add("multiUse-complete", "eval", "numbers(50).multiUse({s: l -> l.sum(), n: l -> l.size()}).s", er*5)
 	add("multiUse-early-stop", "eval", "numbers(100000).multiUse({f: l -> l.first(), t: l -> l.top(3).size()}).f", er*5)
 	add("multiUse-consumer-error", "eval", "numbers(100000).multiUse({f: l -> l.map(e -> throw(\"x\")).sum(), t: l -> l.size()}).f", er*5)
+	add("parallel-source-panics", "eval", "numbers(100).number((i, x) -> if x > 30 then boom(x) else x).map(x -> slow(x)).size()", er)
+	add("parallel-source-panics-in-try", "eval", "try numbers(100).iir(x -> x, (x, l) -> if x > 30 then boom(x) else x).accept(x -> slow(x) >= 0).size() catch 0", er)
+	add("parallel-source-stack-guard", "eval", "func deep(n) 1 + deep(n + 1); numbers(100).combine((p, q) -> if p > 30 then deep(0) else p).map(x -> slow(x)).sum()", er)
+	add("parallel-source-fails", "eval", "numbers(100).number((i, x) -> if x > 30 then fail(x) else x).map(x -> slow(x)).size()", er)
 	add("multiUse-source-panics", "eval", "numbers(100).combine((p, q) -> if p = 5 then boom(p) else p).multiUse({f: l -> l.sum(), t: l -> l.size()}).f", er*5)
 	add("multiUse-source-panics-in-try", "eval", "try numbers(100).iir(e -> e, (e, l) -> if e = 5 then boom(e) else e + l).multiUse({f: l -> l.sum(), t: l -> l.size()}).f catch 0", er*5)
 	add("multiUse-source-stack-guard", "eval", "func deep(n) 1 + deep(n + 1); numbers(100).number((n, e) -> if e = 5 then deep(0) else e).multiUse({f: l -> l.sum(), t: l -> l.size()}).f", er*5)
